@@ -81,6 +81,7 @@ theorem exchangeBatch_rel_spec (run : ProbeRunner) {w : World} {fl : List Nat} (
     (hne : ¬ (add = [] ∧ rem = []))
     (hpre : ∀ (t : Nat), t < w.tables.length → TblMatch w fo.filter (fo.rels ++ extra) t →
       (w.tbl t).len ≠ 0 → XchgPreM w (tmask w t) add rem rels)
+    (htin : ∀ (r : RelID), r ∈ rels → r.target.id < w.pool.ents.length)
     {l1 l2 : Lock} {b : Nat} (hcyc : QueryExact.LockCycle w.locks l1 b l2) (hl2 : l2.isLocked = false)
     (hfew : 2 * w.tables.length < maxU32) (hrows : 2 * w.entities.length < 2 ^ 32) :
     ∃ (ts : List Nat) (w' : World), getBatchTables fo extra w = .ok ts w ∧
@@ -144,11 +145,9 @@ theorem exchangeBatch_rel_spec (run : ProbeRunner) {w : World} {fl : List Nat} (
       r.target.id < w1.isTarget.length := by
     intro hb r hrm hz
     obtain ⟨b0, hb0⟩ := List.exists_mem_of_ne_nil bts hb
-    rcases (hokb b0 hb0).targets r hrm with k | k
-    · rw [k] at hz; cases hz
-    · rw [i3.untouched.isTarget]
-      show r.target.id < w.isTarget.length
-      rw [h.link.tgtLen]; exact h.link.alive_lt k
+    rw [i3.untouched.isTarget]
+    show r.target.id < w.isTarget.length
+    rw [h.link.tgtLen]; exact h.link.lt_of_in (htin r hrm)
   have ma := moveLoopX_post bts i2 mok (by rw [i3.entities]; exact hrows) hreg
   have hlocks : (bts.foldl (moveStepX rels) w1).locks.unlock b = some l2 := by
     rw [ma.locks, i3.untouched.locks]; exact hcyc.unlock
@@ -300,12 +299,14 @@ def xchgSeq (run : ProbeRunner) (p : Path) (add rem : List Comp) (rels : List Re
 
 /-- a live entity's mask is determined by its component list -/
 theorem maskOf_get_eq {w w' : World} {fl fl' : List Nat} (h : TInv w fl) (h' : TInv w' fl')
-    {e : Ent} (h2 : 2 ≤ e.id) (hnf : e.id ∉ fl) (ha : w.alive e = true) (hnf' : e.id ∉ fl')
-    (ha' : w'.alive e = true) (hc : compsOf w' e.id = compsOf w e.id) (c : Comp) :
+    {e : Ent} (h2 : 2 ≤ e.id) (hnf : e.id ∉ fl) (ha : w.alive e = true)
+    (hsl : e.id < w.pool.ents.length) (hnf' : e.id ∉ fl')
+    (ha' : w'.alive e = true) (hsl' : e.id < w'.pool.ents.length)
+    (hc : compsOf w' e.id = compsOf w e.id) (c : Comp) :
     (w'.maskOf e).get c = (w.maskOf e).get c := by
-  obtain ⟨cs, hcs⟩ := h.compsOf_live h2 hnf ha
-  have i1 := h.mask_iff_comps h2 hnf ha hcs c
-  have i2 := h'.mask_iff_comps h2 hnf' ha' (hc.trans hcs) c
+  obtain ⟨cs, hcs⟩ := h.compsOf_live h2 hnf ha hsl
+  have i1 := h.mask_iff_comps h2 hnf ha hsl hcs c
+  have i2 := h'.mask_iff_comps h2 hnf' ha' hsl' (hc.trans hcs) c
   cases hA : (w'.maskOf e).get c with
   | true => exact (i1.2 (i2.1 hA)).symm
   | false =>
@@ -336,10 +337,13 @@ theorem xchgSeq_post (run : ProbeRunner) (p : Path) {add rem : List Comp} {rels 
     ∀ (l : List Ent) {w : World} {fl : List Nat}, TInv w fl → w.isLocked = false →
     (∀ (evt : Nat), w.obs.hasObservers evt = false) →
     (∀ (e : Ent), e ∈ l → 2 ≤ e.id ∧ e.id ∉ fl ∧ w.alive e = true ∧ XchgPre w e add rem rels) →
-    (l.map (·.id)).Nodup → w.tables.length + l.length < maxU32 → w.entities.length + 1 < 2 ^ 32 →
+    (∀ (e : Ent), e ∈ l → e.id < w.pool.ents.length) →
+    (l.map (·.id)).Nodup →
+    (∀ (r : RelID), r ∈ rels → r.target.id < w.pool.ents.length) →
+    w.tables.length + l.length < maxU32 → w.entities.length + 1 < 2 ^ 32 →
     ∃ (w'' : World), xchgSeq run p add rem rels l w = .ok () w'' ∧
       XchgAllPost w fl l add rem rels w''
-  | [], w, fl, h, _, _, _, _, _, _ =>
+  | [], w, fl, h, _, _, _, _, _, _, _, _ =>
     ⟨w, rfl,
       { tinv := h, aliveSame := fun _ => rfl
         comps := by intro e he; cases he
@@ -348,12 +352,15 @@ theorem xchgSeq_post (run : ProbeRunner) (p : Path) {add rem : List Comp} {rels 
         targetIff := by intro e he; cases he
         frame := fun _ _ => ⟨⟨fun _ => rfl, rfl⟩, fun _ => rfl⟩
         obs := rfl, unlocked := rfl, kinds := rfl, entitiesLen := rfl }⟩
-  | e :: l, w, fl, h, hl, hno, hlive, hndi, hfew, hrows => by
+  | e :: l, w, fl, h, hl, hno, hlive, hlin, hndi, htin, hfew, hrows => by
     obtain ⟨h2, hnf, ha, hp⟩ := hlive e List.mem_cons_self
+    have hsl := hlin e List.mem_cons_self
     have hnd' : e.id ∉ l.map (·.id) ∧ (l.map (·.id)).Nodup := by
       rw [List.map_cons] at hndi; exact List.nodup_cons.mp hndi
     simp only [List.length_cons] at hfew
-    obtain ⟨w1, hok, sp⟩ := opExchange_rel_spec run p h hl hno h2 hnf ha hp [] (by omega) hrows
+    obtain ⟨w1, hok, sp⟩ := opExchange_rel_spec run p h hl hno h2 hnf ha hsl hp [] htin (by omega)
+      hrows
+    have hplen : w1.pool.ents.length = w.pool.ents.length := by rw [sp.pool]
     have hne' : ∀ (e' : Ent), e' ∈ l → e'.id ≠ e.id := by
       intro e' he' heq
       exact hnd'.1 (heq ▸ List.mem_map_of_mem he')
@@ -362,11 +369,15 @@ theorem xchgSeq_post (run : ProbeRunner) (p : Path) {add rem : List Comp} {rels 
       intro e' he'
       obtain ⟨a, b, c, d⟩ := hlive e' (List.mem_cons_of_mem _ he')
       have c1 : w1.alive e' = true := by rw [sp.aliveSame]; exact c
+      have d1 := hlin e' (List.mem_cons_of_mem _ he')
       exact ⟨a, b, c1, d.congr
-        (maskOf_get_eq h sp.tinv a b c b c1 (sp.frame e'.id (hne' e' he')).1.2) sp.kinds sp.pool⟩
+        (maskOf_get_eq h sp.tinv a b c d1 b c1 (by rw [hplen]; exact d1)
+          (sp.frame e'.id (hne' e' he')).1.2) sp.kinds sp.pool⟩
     obtain ⟨w'', hrest, ip⟩ := xchgSeq_post run p l sp.tinv
       (by show w1.locks.isLocked = false; rw [sp.locks]; exact hl)
-      (fun evt => by rw [sp.obs]; exact hno evt) hlive1 hnd'.2
+      (fun evt => by rw [sp.obs]; exact hno evt) hlive1
+      (fun e' he' => by rw [hplen]; exact hlin e' (List.mem_cons_of_mem _ he')) hnd'.2
+      (fun r hr => by rw [hplen]; exact htin r hr)
       (by have := sp.tablesLen; omega) (by rw [sp.entitiesLen]; exact hrows)
     refine ⟨w'', ?_, ?_⟩
     · simp only [xchgSeq, M.forM', bind, M.bind, hok]
@@ -502,6 +513,7 @@ theorem exchangeBatch_rel_eq_singles (run : ProbeRunner) (p : Path) {w : World} 
     (hne : ¬ (add = [] ∧ rem = []))
     (hpre : ∀ (t : Nat), t < w.tables.length → TblMatch w fo.filter (fo.rels ++ extra) t →
       (w.tbl t).len ≠ 0 → XchgPreM w (tmask w t) add rem rels)
+    (htin : ∀ (r : RelID), r ∈ rels → r.target.id < w.pool.ents.length)
     {l1 l2 : Lock} {b : Nat} (hcyc : QueryExact.LockCycle w.locks l1 b l2) (hl2 : l2.isLocked = false)
     (hfew : 2 * w.tables.length < maxU32) (hrows : 2 * w.entities.length < 2 ^ 32) :
     ∃ (ts : List Nat) (w' : World), getBatchTables fo extra w = .ok ts w ∧
@@ -519,7 +531,7 @@ theorem exchangeBatch_rel_eq_singles (run : ProbeRunner) (p : Path) {w : World} 
           (∀ (i : Nat) (c : Comp), targetOf w' i c = targetOf w'' i c) ∧
           w'.isLocked = w''.isLocked := by
   obtain ⟨ts, w', hts, hb, pb, _⟩ := exchangeBatch_rel_spec run h hl hno fo extra hc hr hne hpre
-    hcyc hl2 hfew hrows
+    htin hcyc hl2 hfew hrows
   obtain ⟨ts2, hts2, S, hok, _⟩ := getBatchTables_rel h fo extra hc hr
   rw [hts] at hts2
   injection hts2 with e1 _
@@ -542,12 +554,17 @@ theorem exchangeBatch_rel_eq_singles (run : ProbeRunner) (p : Path) {w : World} 
     rw [hm]
     exact hpre t hlt (hok.sound t ht).2 (by omega)
   have hndi : (es'.map (·.id)).Nodup := (hperm.map (·.id)).nodup_iff.mpr u.idsNodup
-  obtain ⟨w'', hs, ps⟩ := xchgSeq_post run p es' h hl hno hlive hndi hfew' (by omega)
+  have hlin : ∀ (e : Ent), e ∈ ts.flatMap (rowsOf w) → e.id < w.pool.ents.length := by
+    intro e he
+    obtain ⟨t, r, _, hx⟩ := (u.live e he).2.2.2
+    rw [← h.link.lenEq]; exact (List.getElem?_eq_some_iff.mp hx).1
+  obtain ⟨w'', hs, ps⟩ := xchgSeq_post run p es' h hl hno hlive
+    (fun e he => hlin e (hperm.mem_iff.mp he)) hndi htin hfew' (by omega)
   have hcomps : ∀ (e : Ent), e ∈ ts.flatMap (rowsOf w) → ∃ (cs : List Comp),
       compsOf w e.id = some cs := by
     intro e he
     obtain ⟨a1, a2, a3, _⟩ := u.live e he
-    exact h.compsOf_live a1 a2 a3
+    exact h.compsOf_live a1 a2 a3 (hlin e he)
   obtain ⟨o1, o2, o3, o4, o5, _⟩ := pb.obs_eq ps (fun e => hperm.mem_iff.symm) hcomps
   exact ⟨w'', hs, ps, o1, o2, o3, o4, o5⟩
 
